@@ -287,3 +287,23 @@ func posOf(n ast.Node) token.Pos {
 	}
 	return n.Pos()
 }
+
+// litKeyValue returns the value given for field fld in a (pointer to a) composite literal expression.
+func litKeyValue(info *types.Info, e ast.Expr, fld *types.Var) ast.Expr {
+	e = ast.Unparen(e)
+	if u, ok := e.(*ast.UnaryExpr); ok && u.Op == token.AND {
+		e = ast.Unparen(u.X)
+	}
+	cl, ok := e.(*ast.CompositeLit)
+	if !ok {
+		return nil
+	}
+	for _, el := range cl.Elts {
+		if kv, ok := el.(*ast.KeyValueExpr); ok {
+			if id, ok := kv.Key.(*ast.Ident); ok && info.Uses[id] == fld {
+				return kv.Value
+			}
+		}
+	}
+	return nil
+}
